@@ -726,12 +726,26 @@ class GCodeBuilder(GCodeCore):
             raise ValueError(f"Not a valid halt mode: {mode}.")
 
         mode = HaltMode(mode)
-        self.state._set_halt_mode(mode)
-
-        # Track temperatures if provided
+        statement = self._get_statement(mode, kwargs)
 
         keys = ["S", "R"]  # Wait when heating, or wait always
         temperature = self._get_user_param(keys, kwargs)
+
+        bounds_name = {
+            HaltMode.WAIT_FOR_BED: "bed-temperature",
+            HaltMode.WAIT_FOR_HOTEND: "hotend-temperature",
+            HaltMode.WAIT_FOR_CHAMBER: "chamber-temperature",
+        }.get(mode)
+
+        # Validate everything before changing the state, so that a
+        # rejected halt leaves the tracked state untouched
+
+        if temperature is not None and bounds_name is not None:
+            self.state._user_bounds.validate(bounds_name, temperature)
+
+        self.state._set_halt_mode(mode)
+
+        # Track temperatures if provided
 
         if temperature is not None:
             if mode == HaltMode.WAIT_FOR_BED:
@@ -743,7 +757,6 @@ class GCodeBuilder(GCodeCore):
 
         # Output the statement
 
-        statement = self._get_statement(mode, kwargs)
         self.write(statement)
 
     def wait(self) -> None:
